@@ -1,0 +1,20 @@
+//go:build verif
+
+package docker
+
+import (
+	dockercontainer "github.com/docker/docker/api/types/container"
+	dockerapi "github.com/docker/docker/client"
+
+	coretypes "github.com/projecteru2/core/types"
+)
+
+// VerifMakeResourceSetting exposes makeResourceSetting to the verification harness.
+func VerifMakeResourceSetting(cpu float64, memory int64, cpuMap map[string]int64, numaNode string, iops map[string]string, remap bool) dockercontainer.Resources {
+	return makeResourceSetting(cpu, memory, cpuMap, numaNode, iops, remap)
+}
+
+// VerifNewEngine builds an Engine around an arbitrary (mocked) Docker API client.
+func VerifNewEngine(client dockerapi.APIClient, config coretypes.Config) *Engine {
+	return &Engine{client: client, config: config}
+}
